@@ -47,6 +47,8 @@ func implName(c psatoken.IClaims) string {
 		return "X5"
 	case *X6Claims:
 		return "X6"
+	case *X7Claims:
+		return "X7"
 	}
 	return "?"
 }
